@@ -70,6 +70,14 @@ def run(res, drv, tier, seed):
         for it in budgets:
             eng = estgen.make_engine(prob['dom'], {}, iters=it)
             try:
+                if ci % 4 == 0 and len(prob['meas']) >= 2:
+                    # the estimator has a history: an earlier call on part of the list (one-way marginals first, as adaptive mechanisms do)
+                    first = sorted(prob['meas'], key=lambda m: len(m['proj']))[: max(1, len(prob['meas']) // 2)]
+                    eng.iters = 5
+                    estgen.estimate(eng, first, total, engine)
+                    eng.iters = it
+                    if it == budgets[0]:
+                        res.count('estimator with an earlier call on part of the measurement list')
                 model = estgen.estimate(eng, prob['meas'], total, engine)
             except Exception as e:
                 res.violation('failing-input', f'estimate({engine}, iters={it}) raises {type(e).__name__}: {str(e)[:120]}', {'request': canon}, key=f'optimum:raises:{engine}')
